@@ -115,7 +115,7 @@ SnapOf(kk) ==
     nhold |-> [p \in PIDs |-> Cardinality({r \in 1..NRes : kk.holder[r] = p}) + (IF kk.pheld[p] > 0 THEN 1 ELSE 0)],
     res |-> [r \in 1..NRes |-> [inuse |-> IF kk.holder[r] = 0 THEN 0 ELSE 1, avail |-> IF kk.holder[r] = 0 THEN 1 ELSE 0, holder |-> kk.holder[r]]],
     pool |-> [inuse |-> kk.pinuse, avail |-> PoolCap - kk.pinuse, held |-> kk.pheld],
-    buf |-> [level |-> kk.level, space |-> BufCap - kk.level],
+    buf |-> [level |-> kk.level, space |-> BufCap - kk.level, exact |-> TRUE],
     amnt |-> [p \in PIDs |-> IF kk.call[p].op = "bput" THEN kk.call[p].rem
                               ELSE IF kk.call[p].op = "bget" THEN kk.call[p].a[1] - kk.call[p].rem ELSE 0],
     oq |-> [len |-> Len(kk.oq), space |-> OqCap - Len(kk.oq),
